@@ -18,7 +18,9 @@
 //   (conc <inproc|http> (client <name> <tree> (<op>...))...)
 //   (cobs <stray 0|1> <hang 0|1> (cl (<answer>...) <tree> (<answer>...) <tree>)...)
 //
-// In the thorough tier the conc workload is additionally run in a child process
+// Part "cdav" (cdav.go): the same differential for caldav/carddav handlers, no model.
+//
+// In the thorough tier the conc and cdav workloads are additionally run in a child process
 // built with -race (support, not proof); a race report becomes the line
 // (conc race) (cobs 0 0 race <report>).
 package main
@@ -1126,6 +1128,8 @@ func main() {
 				raceSoak(sink)
 			case x.Head() == "conc":
 				sink.Put(runConc(parseWorkload(x), concWatchdog))
+			case x.Head() == "cdav":
+				sink.Put(runDav(parseDWorkload(x), concWatchdog))
 			}
 		}
 		return
@@ -1136,6 +1140,9 @@ func main() {
 		ws := concWorkloads(rng.Fork(2), false, 0)
 		for _, w := range ws {
 			sink.Put(runConc(w, 120*time.Second))
+		}
+		for _, w := range davWorkloads(rng.Fork(3), 150) {
+			sink.Put(runDav(w, 120*time.Second))
 		}
 		return
 	}
@@ -1168,6 +1175,20 @@ func main() {
 		ws := concWorkloads(rng.Fork(2), thorough, 1)
 		runConcAll(ws, sink, concWatchdog)
 		fmt.Fprintf(os.Stderr, "c18: %d concurrent workloads\n", len(ws))
+		ndav := 400
+		if thorough {
+			ndav = 4000
+		}
+		procs := []int{1, 2, 4, 8}
+		old := runtime.GOMAXPROCS(0)
+		for i, w := range davWorkloads(rng.Fork(3), ndav) {
+			if tooBroken() {
+				break
+			}
+			runtime.GOMAXPROCS(procs[i%len(procs)])
+			sink.Put(runDav(w, concWatchdog))
+		}
+		runtime.GOMAXPROCS(old)
 		if thorough {
 			raceSoak(sink)
 		}
